@@ -627,3 +627,131 @@ def c02(tier):
 
 
 PLANS.update({"C15": c15, "C08": c08, "C02": c02})
+
+
+# ------------------------------------------------------------------------------------------
+def gen_box(r, w, h, k, n, kind):
+    """kind: sharp | round | round2 | uni | uniround; random edge styles and side stretches"""
+    ascii_ = kind in ("sharp", "round", "round2")
+    tl, tr, bl, br = {"sharp": "++++", "round": "..''", "round2": ",.`'", "uni": "┌┐└┘", "uniround": "╭╮╰╯"}[kind]
+    hz_opts = ["-", "~"] if ascii_ else ["─", "┄"]
+    style = r.choice(["solid", "solid", "dash_h", "dash_v", "mixed"])
+
+    def hz_row():
+        if style in ("dash_h",):
+            return r.choice(hz_opts[1]) * w
+        if style == "mixed":
+            return "".join(r.choice(hz_opts) for _ in range(w))
+        return hz_opts[0] * w
+
+    def side_col():
+        col = ["|" if ascii_ else "│"] * h
+        if style in ("dash_v", "mixed") and h >= 2:
+            if ascii_:
+                # dashed stretch that continues a vertical stroke
+                a = r.randrange(0, h)
+                b_ = r.randint(a, h - 1)
+                for i in range(a, b_ + 1):
+                    col[i] = r.choice(":!")
+                if all(c in ":!" for c in col):
+                    col[r.randrange(h)] = "|"
+                # every dashed char needs a vertical neighbour in the side; fix isolated ones
+                for i in range(h):
+                    if col[i] in ":!":
+                        up = i > 0
+                        dn = i < h - 1
+                        if not (up or dn):
+                            col[i] = "|"
+            else:
+                for i in range(h):
+                    if r.random() < 0.4:
+                        col[i] = r.choice("┊┆╎")
+                if all(c != "│" for c in col):
+                    col[r.randrange(h)] = "│"
+        return col
+    left, right = side_col(), side_col()
+    text_mode = r.choice(["none", "label", "full"])
+    rows = [tl + hz_row() + tr]
+    for i in range(h):
+        inner = " " * w
+        if text_mode == "label" and i == h // 2 and w >= 2:
+            lab = "".join(r.choice(gen.LABELS) for _ in range(r.randint(1, min(w, 6))))
+            off = r.randint(0, w - len(lab))
+            inner = " " * off + lab + " " * (w - off - len(lab))
+        elif text_mode == "full":
+            inner = "".join(r.choice(gen.LABELS + "  ") for _ in range(w))
+        rows.append(left[i] + inner + right[i])
+    rows.append(bl + hz_row() + br)
+    text = "\n" * n + "\n".join(" " * k + x for x in rows)
+    return text, {"k": k, "n": n, "w": w, "h": h}
+
+
+def mutate(r, text, alphabet):
+    rows = [list(x) for x in text.split("\n")]
+    cand = [(i, j) for i, row in enumerate(rows) for j in range(len(row))]
+    for _ in range(r.choice([1, 1, 2])):
+        if not cand:
+            break
+        i, j = r.choice(cand)
+        rows[i][j] = r.choice(alphabet)
+    if r.random() < 0.3:
+        rows.append(list(r.choice(["+--+", "| |", "+-+", "|  |", "--"])))
+    if r.random() < 0.3:
+        rows.insert(0, list(r.choice(["+--+", "| |", "+-+", "|  |", "--"])))
+    return "\n".join("".join(x) for x in rows)
+
+
+C05_ALPHA = "-|+.'`,~:! "
+
+
+def c05(tier):
+    run = Run("C05", tier)
+    run.rule = ("completeness: the box family (sharp / rounded . , ' ` / box-drawing corners; - ~ edges; | sides with "
+                ": ! stretches; interior label text), interior sizes %s at seeded offsets: BoxOracle (TLC checks the "
+                "input is the claimed box, then exactly one rect with the expected position, size, radius and class, "
+                "plus the interior texts). soundness (RectSound: every half-cell of every rect edge lies in a cell "
+                "whose character can stroke in that direction there) on: all small grids over the alphabet on the "
+                "model (TLC invariant) and replayed, the box-mutation family (single/double substitutions, extra "
+                "rungs/rails), random grids over {-,|,+,.,',`,,,~,:,!,space} and the mixed corpus. non-trivial = the "
+                "document contains a rect" % ("0..16 x 0..8" if tier == "quick" else "0..60 x 0..30"))
+    r = common.rng("C05")
+    cfg = write_cfg("MC_C05", {"W": 3, "H": 3 if tier == "thorough" else 2, "Alphabet": tla_set([32, 45, 124, 43] if tier == "thorough" else [32, 45, 124, 43, 46, 39])},
+                    ["ModelC05", "Emit"])
+    res = run.model("MC_Doc", cfg)
+    replay_models(run, [res], ["C05s"])
+    run.validate()
+    kinds = ["sharp", "round", "round2", "uni", "uniround"]
+    boxes = []
+    if tier == "quick":
+        sizes = [(w, h) for w in list(range(0, 9)) + [12, 16] for h in [0, 1, 2, 3, 5, 8]]
+        per = 1
+    else:
+        sizes = [(w, h) for w in range(0, 61) for h in range(0, 31)]
+        per = 1
+    for (w, h) in sizes:
+        for kind in kinds:
+            if kind != "sharp" and kind != "uni" and w == 0:
+                continue
+            for _ in range(per):
+                boxes.append(gen_box(r, w, h, r.randint(0, 5), r.randint(0, 3), kind))
+    obs = observe.observe([{"input": t} for t, _ in boxes], tag="C05A")
+    for (t, b), o in zip(boxes, obs):
+        run.add_event({"props": ["C05box", "C05s"], "rows": o["rows"], "doc": o["doc"], "box": b}, {"input": t, "box": b})
+    run.samples.append({"input": boxes[len(boxes) // 2][0], "box": boxes[len(boxes) // 2][1]})
+    run.validate(shard=1200)
+    # soundness families
+    n = 1500 if tier == "quick" else 80000
+    muts = []
+    for i in range(n):
+        t, _ = gen_box(r, r.randint(0, 6), r.randint(0, 4), r.randint(0, 2), r.randint(0, 1), r.choice(kinds[:3]))
+        muts.append(mutate(r, t, C05_ALPHA))
+    rnd = [gen.random_grid(r, r.randint(2, 10), r.randint(2, 6), C05_ALPHA[:-1], r.choice([0.5, 0.8, 0.95])) for _ in range(n // 2)]
+    corpus = gen.mixed_corpus(r, n // 3)
+    observe_events(run, gen.dedup(muts + rnd + corpus), ["C05s"], "soundness")
+    run.samples.append({"input": muts[0]})
+    run.validate()
+    run.assumptions = std_assumptions() + ["a rounded box needs at least one edge character between its corners; a side is a '|' side (contains a '|')"]
+    return run.finish()
+
+
+PLANS.update({"C05": c05})
